@@ -222,6 +222,7 @@ class QCC(Ansatz):
         # Obtain quantum circuit through trivial trotterization of the qubit operator
         # Track the order in which pauli words have been visited for fast parameter updates
         pauli_words_gates = []
+        self.pauli_to_angles_mapping = dict()
         pauli_words = sorted(qubit_op.terms.items(), key=lambda x: len(x[0]))
         for i, (pauli_word, coef) in enumerate(pauli_words):
             pauli_words_gates += exp_pauliword_to_gates(pauli_word, coef)
